@@ -14,6 +14,50 @@ class ScenarioDead(Exception):
 DEAD_BENCHES = []
 
 
+class SpinGuard:
+    """A public call that spins inside the library WITHOUT touching the socket never reaches the socket-operation budget; it would
+    end in the shard's wall-clock watchdog, i.e. 'inconclusive'.  The verdict must not come from a clock, so the clock only decides
+    when to START COUNTING: after `grace` seconds inside one call a SIGALRM arms a LINE-event budget (sys.monitoring); if the call
+    then executes `limit` further library lines without returning, BudgetExceeded ends it - a logical-step verdict.  The largest
+    legitimate calls of the checks (tens of thousands of tags in one read) execute a few million lines."""
+
+    def __init__(self, grace=30.0, limit=60_000_000):
+        self.grace, self.limit = grace, limit
+        self.budget = None
+        self.ok = False
+        try:
+            import signal
+            import threading
+            self.signal = signal
+            self.ok = threading.current_thread() is threading.main_thread() and hasattr(signal, "setitimer")
+        except Exception:  # noqa
+            self.ok = False
+
+    def _on_alarm(self, signum, frame):
+        from .monitors import StepBudget
+        try:
+            if self.budget is None:
+                self.budget = StepBudget().start()
+            self.budget.begin(self.limit)
+        except Exception:  # noqa - tool id taken by a check's own budget: that budget already guards the call
+            self.budget = None
+
+    def enter(self):
+        if self.ok:
+            self.prev = self.signal.signal(self.signal.SIGALRM, self._on_alarm)
+            self.signal.setitimer(self.signal.ITIMER_REAL, self.grace)
+
+    def leave(self):
+        if self.ok:
+            self.signal.setitimer(self.signal.ITIMER_REAL, 0)
+            self.signal.signal(self.signal.SIGALRM, self.prev)
+            if self.budget is not None:
+                self.budget.end()
+
+
+SPIN_GUARD = SpinGuard()
+
+
 class Bench:
     def __init__(self, rng, host="192.168.1.236", port=44818):
         self.rng = rng
@@ -57,8 +101,12 @@ class Bench:
         self.step += 1
         self.calls.append((self.step, "call", op))
         self.net.call_ops = 0
+        SPIN_GUARD.enter()
         try:
-            out = fn(*a, **kw)
+            try:
+                out = fn(*a, **kw)
+            finally:
+                SPIN_GUARD.leave()
         except BudgetExceeded as e:
             # the call did not finish within its logical step budget: the driver is unusable from here on
             self.calls.append((self.step, "budget", op))
